@@ -214,7 +214,7 @@ def check(ctx):
                         direct.append((m, call))
                     elif getattr(callee, "name", None) == "fit_model":
                         via += 1
-    ctx.sites("C20.R5", via, 3, "fit_model call sites (median, lower, upper)")
+    ctx.sites("C20.R5", via + len(direct), 3, "quantile-regression fit sites of the conformal family (median, lower, upper)")
     for m, call in direct:
         ctx.ob("C20.R5.direct", util.key(m, call), False, m.where(call),
                "quantile-regression fit bypasses fit_model: a solver failure here is fatal")
